@@ -122,7 +122,7 @@ def _gen_program_once(rng, *, futures, hooks, max_pre):
             if ti + 1 < len(TYPES) and rng.random() < 0.4:
                 side = [_evspec(rng, n_ent, ti + 1, handles, hooks=hooks, hook_ids=hook_ids) for _ in range(rng.randrange(0, 3))]
             style = rng.choice(["list", "list", "single", "none"])
-            if futures and not side and rng.random() < 0.5:
+            if not side and rng.random() < (0.5 if futures else 0.3):
                 side, style = [], "shared"
             out.append({"op": "delay", "d": rng.choice(delays), "side": side, "side_style": style})
         return out
@@ -159,6 +159,8 @@ def _gen_program_once(rng, *, futures, hooks, max_pre):
                     "body": body(ti),
                     "ret": ret,
                     "style": rng.choice(["list", "list", "single", "none"]),
+                    # the handler may hand back any collections.abc.Generator, not only a native generator object
+                    "wrapped": rng.random() < 0.2,
                 }
     # pre-run events on a tiny set of timestamps so that ties are the norm
     times = rng.sample(BASE_TIMES, rng.randrange(1, 4))
